@@ -461,7 +461,7 @@ fn window_family(rep: &mut Report, old: usize, newer: usize, blocks: usize) {
 pub fn run(tier: &str) -> i32 {
     let mut rep = Report::new("C15", tier, "model_checking");
     let quick = tier == "quick";
-    let bodies = vec![BODY_CB, BODY_FEE_SEGWIT, BODY_FEE_PAIR, BODY_FEE_ZERO];
+    let bodies = vec![BODY_CB, BODY_FEE_SEGWIT, BODY_FEE_PAIR, BODY_FEE_ZERO, BODY_FEE_OVERSPEND];
     // (theta, lazy, n, upgrades, queries)
     let parts: Vec<(u32, bool, usize, usize, usize)> = if quick {
         vec![(2, false, 4, 1, 0), (2, true, 4, 1, 2), (6, false, 4, 0, 0)]
@@ -496,7 +496,7 @@ pub fn run(tier: &str) -> i32 {
         window_family(&mut rep, *a, *n, *b);
     }
     rep.parts.push(json!({"part": "10,000-transaction window family", "runs": fam}));
-    rep.rule = "histories of <= n blocks delivered through the real heartbeat (so that the eager computation runs where production runs it), each block with a fee body (segwit fee 1000, legacy fee 7 + segwit fee 250000, fee 0, none) on any live block (forks with different fees, reorgs back and forth), upgrades, and query events in lazy mode; the answer is compared with a stateful reference (computed when a new tip is first observed, kept otherwise, previous answer kept when the chain has no fee transaction); plus the percentile routine on all n in [1,400] U {9999,10000,10001} x 5 value patterns and the 10,000-transaction window family".into();
+    rep.rule = "histories of <= n blocks delivered through the real heartbeat (so that the eager computation runs where production runs it), each block with a fee body (segwit fee 1000, legacy fee 7 + segwit fee 250000, fee 0, a transaction whose outputs exceed its inputs, none) on any live block (forks with different fees, reorgs back and forth), upgrades, and query events in lazy mode; the answer is compared with a stateful reference (computed when a new tip is first observed, kept otherwise, previous answer kept when the chain has no fee transaction); plus the percentile routine on all n in [1,400] U {9999,10000,10001} x 5 value patterns and the 10,000-transaction window family".into();
     rep.bounds = json!({"tier": tier});
     rep.assume("inside the block where the 10,000 window is cut both the first-k and the last-k reading are accepted");
     rep.assume("regtest only: blocks must be mined to pass through the heartbeat");
